@@ -15,6 +15,7 @@ import vlib
 
 SPEC = os.path.join(vlib.SPECS, "ProdProto")
 CACHE = os.path.join(vlib.WORK, "cache", "prod")
+FIXTURE_POOL = os.path.join(vlib.VERIF, "harness", "prod", "fixtures", "cggmp_pool_2048.cbor")
 
 # every configuration spends one to two minutes evaluating its constants (span programmes, coefficient tables) before the first state
 SA_QUICK = ["SA_bls_q5.cfg", "SA_schnorr_q5_pairs.cfg", "SA_l17_q7.cfg", "SA_dkls_q5_quick.cfg"]
@@ -189,6 +190,12 @@ def run_sign(chk):
     bins = _build(need_test=True)
     plain, test = bins["plain"], bins["test"]
     os.makedirs(CACHE, exist_ok=True)
+    # CGGMP21 auxiliary material (ten 1024-bit safe / Blum prime pairs) takes minutes to sample: the quick tier starts from a pool that
+    # the library's own samplers produced once (committed fixture); the thorough tier samples a fresh pool when the cache is empty
+    pool = os.path.join(CACHE, "cggmp_pool_2048.cbor")
+    if chk.quick and not os.path.exists(pool) and os.path.exists(FIXTURE_POOL):
+        import shutil
+        shutil.copy(FIXTURE_POOL, pool)
     stats = {"lines": 0, "by_proto": {}, "by_kind": {}, "by_api": {}, "by_keysrc": {}, "by_policy": {}, "signed": 0, "refused": 0,
              "three_or_more_signers_signed": 0, "replicated_policy_signed": 0, "key_errors": 0}
 
